@@ -230,3 +230,48 @@ impl ConfigReloader {
         Ok(rate)
     }
 }
+
+/// Verification hook: the private `ConfigReloader`, constructed exactly as
+/// `init_file` does and stepped by the caller instead of by a sleeping thread.
+#[cfg(feature = "verif_hooks")]
+#[doc(hidden)]
+pub struct VerifReloader(ConfigReloader);
+
+#[cfg(feature = "verif_hooks")]
+impl VerifReloader {
+    /// Reads and parses `path` like `init_file`; returns the reloader, the
+    /// initial configuration and the initial refresh rate.
+    pub fn new<P>(
+        path: P,
+        deserializers: Deserializers,
+        handle: Handle,
+    ) -> anyhow::Result<(VerifReloader, Option<Duration>)>
+    where
+        P: AsRef<Path>,
+    {
+        let path = path.as_ref().to_path_buf();
+        let format = Format::from_path(&path)?;
+        let source = read_config(&path)?;
+        let modified = fs::metadata(&path).and_then(|m| m.modified()).ok();
+        let config = format.parse(&source)?;
+        let refresh_rate = config.refresh_rate();
+        let config = deserialize(&config, &deserializers);
+        handle.set_config(config);
+        Ok((
+            VerifReloader(ConfigReloader {
+                path,
+                format,
+                source,
+                modified,
+                deserializers,
+                handle,
+            }),
+            refresh_rate,
+        ))
+    }
+
+    /// One poll of the reloader loop (`ConfigReloader::run_once`).
+    pub fn step(&mut self, rate: Duration) -> anyhow::Result<Option<Duration>> {
+        self.0.run_once(rate)
+    }
+}
